@@ -15,7 +15,7 @@ use rand_core::RngCore;
 use serde_json::{json, Value};
 use std::time::{SystemTime, UNIX_EPOCH};
 
-pub const RULE: &str = "fuzz-shaped, deterministic from the seed, executed in the checked (overflow + debug assertions) AND the plain release build: (1) decoders of all 26 byte-convertible types x {bytes, serde_bare, serde_json} on: every truncation length, every single-bit flip (exhaustive for encodings <= 200 bytes, sampled above), +1/+32/+4096 extensions, empty input, all-0x00 / all-0xFF, hostile outer LEB128 length prefixes (2^7-1, 2^14, 2^32, 2^64-1, 19-byte maximal varint), and for JSON: non-hex characters, odd length, too short / too long hex, non-ASCII, escapes, wrong JSON type, missing / extra fields at every leaf; (2) the zero test: EXHAUSTIVE over the 256 byte values in first / middle / last position plus 1000 multi-byte patterns whose OR is 0x80, through every scalar byte importer; (3) every value any decoder returned is fed to every consuming method of its type (verify against honest and foreign keys, decrypt, from_shares, as_raw_value, Display, Debug, re-encode), capped per (type,codec) - plus ciphertexts whose INNER length prefix (under the keystream) is hostile; (4) every slice-taking API with lengths 0,1,2 and SecretKeyEnum::from_*_bytes on short inputs; timestamp x timeout grid over {0,1,now+-1,now+-10^6,2^32,2^63,u64::MAX}. Distinct by (suite,type,codec,input bytes); a case is non-trivial when the input reached a decoder or consumer of the library (all do); counted separately: decoder-accepted inputs and consumer executions.";
+pub const RULE: &str = "fuzz-shaped, deterministic from the seed, executed in the checked (overflow + debug assertions) AND the plain release build: (1) decoders of all 26 byte-convertible types x {bytes, serde_bare, serde_json} on: every truncation length, every single-bit flip (exhaustive for encodings <= 200 bytes, sampled above), +1/+32/+4096 extensions, empty input, all-0x00 / all-0xFF, hostile outer LEB128 length prefixes (2^7-1, 2^14, 2^32, 2^64-1, 19-byte maximal varint), and for JSON: non-hex characters, odd length, too short / too long hex, non-ASCII, escapes, wrong JSON type, missing / extra fields at every leaf; (2) the zero test: EXHAUSTIVE over the 256 byte values in first / middle / last position plus 1000 multi-byte patterns whose OR is 0x80, through every scalar byte importer; (3) every value any decoder returned is fed to every consuming method of its type (verify against honest and foreign keys, decrypt, from_shares, as_raw_value, Display, Debug, re-encode), capped per (type,codec) - plus ciphertexts whose INNER length prefix (under the keystream) is hostile; (4) every slice-taking API with lengths 0,1,2 and 255,256,257,300,1000 (an honest share set repeated) and the full 255-share set and SecretKeyEnum::from_*_bytes on short inputs; timestamp x timeout grid over {0,1,now+-1,now+-10^6,2^32,2^63,u64::MAX}. Distinct by (suite,type,codec,input bytes); a case is non-trivial when the input reached a decoder or consumer of the library (all do); counted separately: decoder-accepted inputs and consumer executions.";
 
 pub fn run(ctx: &mut Ctx) {
     ctx.panic_sig_by_location = true;
@@ -449,6 +449,44 @@ fn slices<C: Suite>(ctx: &mut Ctx, env: &Env<C>) {
             ctx.guard("AggregateSignature::verify", d, || std::hint::black_box(agg0.verify(&data).is_ok()));
         }
         ctx.hit(&cell, &[b"len", &[len as u8]]);
+    }
+    // long slices (more elements than identifiers exist): honest sets repeated
+    for len in [255usize, 256, 257, 300, 1000] {
+        let d = || json!({"slice_len":len,"what":"an honest 2-of-3 share set repeated"});
+        let rep_sk: Vec<SecretKeyShare<C>> = (0..len).map(|i| env.shares[i % 3].clone()).collect();
+        let rep_pk: Vec<PublicKeyShare<C>> = (0..len).map(|i| env.pk_shares[i % 3]).collect();
+        let rep_ss: Vec<SignatureShare<C>> = (0..len).map(|i| ss[i % 3]).collect();
+        let rep_ds: Vec<SignDecryptionShare<C>> = (0..len).map(|i| ds[i % 3].clone()).collect();
+        let rep_es: Vec<ElGamalDecryptionShare<C>> = (0..len).map(|i| es[i % 3].clone()).collect();
+        ctx.guard("SecretKey::combine", d, || std::hint::black_box(SecretKey::<C>::combine(&rep_sk).is_ok()));
+        ctx.guard("PublicKey::from_shares", d, || std::hint::black_box(PublicKey::<C>::from_shares(&rep_pk).is_ok()));
+        ctx.guard("Signature::from_shares", d, || std::hint::black_box(Signature::<C>::from_shares(&rep_ss).is_ok()));
+        ctx.guard("SignCryptDecryptionKey::from_shares", d, || std::hint::black_box(SignCryptDecryptionKey::<C>::from_shares(&rep_ds).is_ok()));
+        ctx.guard("ElGamalDecryptionKey::from_shares", d, || std::hint::black_box(ElGamalDecryptionKey::<C>::from_shares(&rep_es).is_ok()));
+        ctx.guard("SignCryptCiphertext::decrypt_with_shares", d, || std::hint::black_box(bool::from(ct.decrypt_with_shares(&rep_ds).is_some())));
+        let many_sigs: Vec<Signature<C>> = (0..len).map(|_| sigs[2]).collect();
+        ctx.guard("AggregateSignature::from_signatures", d, || std::hint::black_box(AggregateSignature::<C>::from_signatures(&many_sigs).is_ok()));
+        ctx.guard("MultiSignature::from_signatures", d, || std::hint::black_box(MultiSignature::<C>::from_signatures(&many_sigs).is_ok()));
+        let many_pks: Vec<PublicKey<C>> = (0..len).map(|i| if i % 2 == 0 { env.pk } else { env.pk2 }).collect();
+        ctx.guard("MultiPublicKey::from_public_keys", d, || std::hint::black_box(MultiPublicKey::<C>::from_public_keys(&many_pks)));
+        if len <= 300 {
+            let data: Vec<(PublicKey<C>, Vec<u8>)> = many_pks.iter().enumerate().map(|(i, p)| (*p, vec![i as u8, (i >> 8) as u8])).collect();
+            let agg = wrap_agg::<C>(Scheme::Pop, *sigs[2].as_raw_value());
+            ctx.guard("AggregateSignature::verify", d, || std::hint::black_box(agg.verify(&data).is_ok()));
+        }
+        ctx.hit(&cell, &[b"long", &(len as u32).to_le_bytes()]);
+    }
+    // all 255 distinct shares, and all but one
+    if let Ok(all) = env.sk.split(2, 255) {
+        let d = || json!({"what":"all 255 shares of a 2-of-255 split"});
+        let pk_all: Vec<PublicKeyShare<C>> = all.iter().filter_map(|s| s.public_key().ok()).collect();
+        let ss_all: Vec<SignatureShare<C>> = all.iter().filter_map(|s| s.sign(SignatureSchemes::Basic, msg).ok()).collect();
+        let ds_all: Vec<SignDecryptionShare<C>> = all.iter().filter_map(|s| ct.create_decryption_share(s).ok()).collect();
+        ctx.guard("SecretKey::combine", d, || std::hint::black_box(SecretKey::<C>::combine(&all).is_ok()));
+        ctx.guard("PublicKey::from_shares", d, || std::hint::black_box(PublicKey::<C>::from_shares(&pk_all).is_ok()));
+        ctx.guard("Signature::from_shares", d, || std::hint::black_box(Signature::<C>::from_shares(&ss_all).is_ok()));
+        ctx.guard("SignCryptCiphertext::decrypt_with_shares", d, || std::hint::black_box(bool::from(ct.decrypt_with_shares(&ds_all).is_some())));
+        ctx.hit(&cell, &[b"all-255"]);
     }
     // duplicated and mixed share sets
     ctx.guard("Signature::from_shares", || json!({"case":"duplicates"}), || std::hint::black_box(Signature::<C>::from_shares(&[ss[0], ss[0], ss[0]]).is_ok()));
